@@ -76,6 +76,7 @@ known("C09", "c09_format", r"(decimal:|fraction:)?symbol-roundtrip:femtometer:.*
 known("C09", "c09_format", r"roundtrip:.*(percent|permille|%|‰).*", "pretty format with a symbol and exponent on percent/permille does not parse back: '%²' raises DefinitionSyntaxError")
 known("C09", "c09_format", r"structure:Lx:.*", "siunitx formatting strips prefixes by string match: format(micron, 'Lx') = \\si[]{\\micro\\n}")
 known("C09", "c09_format", r"quantity-roundtrip:offset:.*", "Quantity(str(Quantity(5,'degC'))) raises OffsetUnitCalculusError (str(q) of offset/log quantities does not parse back)")
+known("C09", "c09_sortfunc", r"sortdim:unrecognised-dimension", "with formatter.default_sort_func = sort_by_dimensionality every format of a unit none of whose dimensions is in formatter.dim_order (pixel, bits_per_pixel, currency-like user dimensions) raises KeyError, e.g. format(ureg.pixel, 'D')")
 known("C10", "c10_defs", r"bundled:symbol:(milliarcsecond|kilometer_per_second)", "get_symbol('milliarcsecond') is 'marcsec' and get_symbol('kilometer_per_second') is 'kmps'; the file declares 'mas' and 'kps'")
 known("C10", "c10_defs", r"(define-path|late-load):compatible-units", "units added by define()/load_definitions() after construction never appear in get_compatible_units (dimensional_equivalents is not updated)")
 known("C10", "c10_defs", r"illformed:(symbol-space|prefix-symbol-space)", "symbols with spaces are accepted: __post_init__ validates self.name instead of the symbol")
